@@ -715,7 +715,7 @@ func rsJudge(prop string, c rsCase, w *rsWorld, completed bool, r *runCtx) {
 			for _, l := range w.p.c.bufferManager.lists {
 				caps = append(caps, *l.cap)
 			}
-			r.Violf("every stream is closed on both ends and nothing is in flight, but the free slots per size class are %v, the capacities %v (more free than capacity = a buffer was recycled twice)",
+			r.Violf("every stream is closed on both ends and nothing is in flight, but the free slots per size class are %v, the capacities %v (more free than capacity = a buffer was recycled twice, fewer = a buffer was never given back)",
 				w.p.freeCounts(), caps)
 		}
 		if prop == "C10" && (w.p.c.GetActiveStreamCount() != 0 || w.p.s.GetActiveStreamCount() != 0) {
